@@ -115,7 +115,7 @@ PROPS["C20"] = dict(
     level="proof",
     translators=[translate.gen_consts],
     runs=[dict(bin="c20")],
-    quick=dict(n=2000, shards=16),
+    quick=dict(n=2700, shards=16),
     thorough=dict(n=30000, shards=128, run_timeout=3000, coq_case_timeout=3000),
     trusted_base=[
         "model coq/C20/Model.v of api/src/term/_native_literal.rs and of core's integer Display/FromStr, bool FromStr, the grammar accepted by f64::from_str and flt2dec::digits_to_dec_str (hand-written); datatype white-lists re-generated from the source and proved equal to the model's (whitelists_from_source)",
@@ -129,8 +129,8 @@ PROPS["C20"] = dict(
 PROPS["C14"] = dict(
     level="proof",
     runs=[dict(bin="c14")],
-    quick=dict(n=1500, shards=16),
-    thorough=dict(n=40000, shards=64, run_timeout=3000, coq_case_timeout=3000),
+    quick=dict(n=3000, shards=16),
+    thorough=dict(n=80000, shards=64, run_timeout=3000, coq_case_timeout=3000),
     trusted_base=[
         "model coq/C14/Model.v of order_by/cmp_bindings_with (exec.rs), sparql_cmp/sparql_order_by/order_by_class (expression.rs), SparqlValue::partial_cmp/order_by_class/order_by_cmp (value.rs), SparqlNumber coercing comparison and exact_cmp (_number.rs), XsdDateTime partial_cmp/timeline_cmp (hand-written); Term::cmp from Common/Term.v (C02)",
         "lexical form -> value (Rust integer/float parsers, BigDecimal, dateTime regex + chrono) is not modelled: each pool term is given to the model with the value the implementation parsed (Debug rendering of ResultTerm::value())",
@@ -145,7 +145,7 @@ PROPS["C14"] = dict(
 
 PROPS["C17"] = dict(
     level="proof", runs=[dict(bin="c17")],
-    quick=dict(n=600, shards=16),
+    quick=dict(n=2200, shards=16),
     thorough=dict(n=20000, shards=64, run_timeout=3000, coq_case_timeout=3000),
     trusted_base=[
         "model coq/C17/Model.v of iri/src/relativize.rs and of oxiri 0.2.11 IriParser (positions, resolution) behind sophia_iri::resolve::BaseIri, hand-written over UTF-8 bytes; RFC 3986 5.2 transcribed as resolve_rfc",
@@ -178,10 +178,10 @@ PROPS["C09"] = dict(
     coq_targets=["C09/Model", "C09/Properties"],
     coq_timeout=2400,
     runs=[dict(bin="c09")],
-    quick=dict(n=4000, shards=16),
+    quick=dict(n=7200, shards=16),
     thorough=dict(n=300000, shards=128, run_timeout=3000, coq_case_timeout=3000),
     trusted_base=[
-        "lib/regex2coq.py: parser of the (?x) regex subset; IRI_REGEX_SRC and IRELATIVE_REF_REGEX_SRC are re-generated from iri/src/_regex.rs on every run (exercised by the correspondence run)",
+        "lib/regex2coq.py: parser of the (?x) regex subset (flag i = Unicode simple case folding with the table of the regex-syntax release pinned by /repo/Cargo.lock; the atom table is refined where a class cuts an atom); IRI_REGEX_SRC and IRELATIVE_REF_REGEX_SRC are re-generated from iri/src/_regex.rs on every run (exercised by the correspondence run)",
         "Rfc3987.v and Resolve.v: hand transcriptions of RFC 3987 2.2 / RFC 3986 (Rfc3987.v cross-checked case by case against an independent Rust recogniser)",
         "Rust regex engine semantics (whole-string anchored match)",
         "RelationAlgebra's ka: a reflexive Coq-verified decision procedure, no axioms",
@@ -258,7 +258,7 @@ _C05_MODEL = [
 ]
 PROPS["C05"] = dict(
     level="proof", translators=[translate.gen_consts], runs=[dict(bin="c05")],
-    quick=dict(n=600, shards=16),
+    quick=dict(n=900, shards=32),
     thorough=dict(n=8000, shards=64, args=["--thorough"], run_timeout=3000, coq_case_timeout=3000),
     trusted_base=_C05_MODEL,
     assumptions=["datasets well-formed (wf_quad: IRIs without '>', labels/tags without space, IRI predicates, graph names IRI or blank)",
@@ -285,10 +285,12 @@ PROPS["C04"] = dict(
     trusted_base=[
         "model coq/C04/Model.v of the planning phase and statement emission of turtle/src/serializer/_pretty.rs and of get_checked_prefixed_pair (hand-written, terms interned by the harness modulo Term::eq in Term::cmp order)",
         "INTEGER, DECIMAL, DOUBLE, BOOLEAN, PN_LOCAL regular expressions re-generated from _pretty.rs on every run (lib/regex_turtle2coq.py); Turtle productions [19]-[21], PN_LOCAL etc. transcribed by hand (C04/Grammar.v)",
-        "the text layout, Rio's streaming writer and sophia's Turtle/TriG parsers are exercised by the oracle, not modelled; the tie to the writer is plan-level (labels, number of ( and [) not token-level",
+        "TEXT OF A TERM: coq/C04/TermText.v transcribes write_term / write_non_list_term / write_iri / write_plain_iri / write_literal of _pretty.rs on bytes (nt::quoted_string through its C03 model; Iri::new is a parameter of the model, instantiated in the correspondence run with C09's regenerated IRI regex); coq/C04/TermRead.v is a reference reader written by hand from the W3C Turtle grammar (tokens = the regular expressions of Grammar.v / TermGrammar.v cut by a generic longest-match function; IRIREF, STRING_LITERAL_QUOTE, LANGTAG by the recursive readers of C03); the term-level round trip is proved for all terms without variables, all prefix maps with valid distinct prefixes and all admissible continuations, and every term case of the run compares the real bytes of the term with the model and re-reads them with the reference reader inside Coq",
+        "the text layout AROUND terms (new lines, indentation, `;` `,` `[ ]` `( )` `{| |}` GRAPH blocks, PREFIX lines), Rio's streaming writer and sophia's Turtle/TriG parsers are exercised by the oracle, not modelled; for whole datasets the tie to the writer is plan-level (labels, number of ( and [)",
         "accounting (every quad emitted exactly once) is a verified boolean check evaluated per generated case, not a universal theorem",
     ],
     assumptions=["strict RDF / RDF-star input, absolute IRIs (no backslash), distinct prefixes, indentation made of Turtle white space",
+                 "term theorem: IRIs without the characters IRIREF excludes, labels = BLANK_NODE_LABEL, tags = LANGTAG of the Turtle grammar (sophia's LanguageTag also accepts a digit in the first subtag, e.g. a1: outside), no variables; the oracle of the term stream is applied to absolute IRIs and well-formed BCP47 tags only (Rio's parser needs a base for relative IRIs and refuses other tags)",
                  "rdf:first and rdf:rest are distinct terms"],
 )
 
